@@ -126,6 +126,33 @@ Proof.
 Qed.
 Print Assumptions C01_pending_seqs_distinct_unguarded_refuted.
 
+(* No step of the system sets the sequence counter back - in particular a redial keeps
+   session.seq (peer.go's redial closure does not touch it) ... *)
+Theorem C01_seq_counter_never_set_back : forall cfg st ev st',
+  step cfg st ev = Some st' -> forall s, e_count (ep_of st s) <= e_count (ep_of st' s).
+Proof. exact step_count_mono. Qed.
+Print Assumptions C01_seq_counter_never_set_back.
+
+(* ... and that is necessary: from a state reached under ALL hypotheses in which a call is
+   pending, setting the counter back to 0 (a redial that re-numbered from 1) lets the next call
+   take the pending call's number, replace it in the table and be completed - OK - by the
+   pending call's reply. *)
+Theorem C01_seq_counter_reset_refuted :
+  exists cfg st evs st', cf_lock cfg = true /\ cf_callmu cfg = true /\
+    (forall g, In g (cf_reg cfg) -> inverts g) /\ reach cfg st /\
+    run cfg (reset_count st SA) evs = Some st' /\
+    exists c stt b mt, In (c, RReply stt b mt) (e_done (ep_of st' SA)) /\ st_code stt = 0%Z /\
+      b <> fst (fst (cf_handler cfg SB (c_method c) (c_args c) (c_meta c))).
+Proof.
+  exact (ex_intro _ cfg_locked
+    (match counter_reset_rebinds with
+     | ex_intro _ st (ex_intro _ evs (ex_intro _ st' (conj R (conj E W)))) =>
+         ex_intro _ st (ex_intro _ evs (ex_intro _ st'
+           (conj eq_refl (conj eq_refl (conj reg_md5_inverts (conj R (conj E W)))))))
+     end)).
+Qed.
+Print Assumptions C01_seq_counter_reset_refuted.
+
 (* Whenever the reader decodes a REPLY frame, the table entry under the frame's sequence
    number is a call that was issued on this session with exactly that number, and the
    frame's content is the peer handler's output for that call's own method, arguments and
